@@ -33,6 +33,9 @@ KINDS = {
     'char': dict(cpp='char', arith=True, binary=True, sample="'a'"),
     'string': dict(cpp='std::string', arith=False, binary=False, sample='std::string("a")'),
     'ustruct': dict(cpp='UserStruct', arith=False, binary=True, sample='UserStruct{1, 2.0}'),
+    # a user class that is not an aggregate: explicit constructor with defaults (so `T()` is its only default
+    # construction syntax - copy-list-initialisation `T x = {}` / `return {};` is ill-formed), non-trivial member
+    'uclass': dict(cpp='UserClass', arith=False, binary=False, sample='UserClass(1, "x")'),
 }
 QUICK_KINDS = list(KINDS)  # extraction is cheap and parallel; all kinds in both tiers
 
@@ -51,6 +54,14 @@ struct UserStruct {
     double b;
     bool operator==(const UserStruct &o) const { return a == o.a && b == o.b; }
     bool operator<(const UserStruct &o) const { return a < o.a || (a == o.a && b < o.b); }
+};
+class UserClass {
+    int a;
+    std::string unit;
+  public:
+    explicit UserClass(int a = 0, std::string unit = "u") : a(a), unit(unit) {}
+    bool operator==(const UserClass &o) const { return a == o.a && unit == o.unit; }
+    bool operator<(const UserClass &o) const { return a < o.a || (a == o.a && unit < o.unit); }
 };
 '''
 
